@@ -685,6 +685,30 @@ func init() {
 		},
 	})
 
+	// ---- math/rand: a *rand.Rand is one memory cell as far as the happens-before monitor is concerned
+	// (rand.Rand is documented as not safe for concurrent use: every method call is a write to its state);
+	// the numbers themselves come from a per-path counter (generated identifiers are opaque to every oracle)
+	reg(map[string]externalFn{
+		"math/rand.NewSource": func(fr *frame, args []value) value { return nativeHandle{"rand.Source"} },
+		"math/rand.New": func(fr *frame, args []value) value {
+			cell := new(value)
+			*cell = nativeHandle{"rand.Rand"}
+			return cell
+		},
+		"(*math/rand.Rand).Intn": func(fr *frame, args []value) value {
+			it := fr.i
+			if cell, ok := args[0].(*value); ok && it.hb != nil && fr.caller != nil {
+				it.hb.accessNative(fr.caller, cell, true, "state of a math/rand.Rand")
+			}
+			it.randCounter++
+			n := int(asInt64(args[1]))
+			if n <= 0 {
+				panic(targetPanic{iface{types.Typ[types.String], "invalid argument to Intn"}})
+			}
+			return int(it.randCounter*7+3) % n
+		},
+	})
+
 	// ---- time / context (context is implemented in Go inside verifrt)
 	reg(map[string]externalFn{
 		"time.After": func(fr *frame, args []value) value { return fr.i.newTimer(fr.caller, asInt64(args[0])) },
